@@ -47,6 +47,9 @@ def run(ctx):
     units = pp.units_product(ctx.tier)
     ctx.bounds['units'] = len(units)
     ctx.product_run('units', 'checks.c01:run_case', units, chunksize=1)
+    floor = pp.floor_product(ctx.tier)
+    ctx.bounds['floor'] = len(floor)
+    ctx.product_run('floor', 'checks.c01:run_case', floor, chunksize=1)
     ctx.product_run('shape', 'checks.c01:run_case', shape, chunksize=1)
     ctx.product_run('default-dtscale', 'checks.c01:run_case', dflt, chunksize=1)
     real = pp.real_product(ctx.tier)
